@@ -69,6 +69,7 @@ func (c11) Generate(seed uint64, tier string, index int) any {
 	sc := genSync(g, arr, opts, to, false)
 	sc.ModuleFS = false
 	sc.Sources = []SrcArg{{Path: "", Slash: true}}
+	SanitizeKnown(&sc.Src)
 	for i := range sc.Src.Entries {
 		e := &sc.Src.Entries[i]
 		if len(e.Path) > 200 || !utf8Valid(string(e.Path)) && e.Type == "d" {
